@@ -46,6 +46,49 @@ CHECKS = {
          "DESIGN.md §4 C17"),
 }
 
+CHECKS.update({
+ "C01": ("pxe2e", "generative end-to-end testing (proptest generator of application crates -> real pavexc -> rustc): differential 'pavexc accepted => rustc accepts the SDK'",
+         "Application crates are generated from a typed genome (1-7 injectable types with lifecycle / cloning policy / Copy / fallibility / async-ness / several constructor variants, 0-6 middlewares of the three kinds, 1-4 routes, error handlers, observers, nesting <=3), compiled by the real `pavexc generate` (one sub-application per module, several per round) and every accepted SDK is compiled by rustc together with the application. A rejection by rustc of code pavexc accepted is the violation, shrunk greedily on the spec. Finds shallow and mid-depth codegen defects in the generated class; cannot show absence; the class does not contain generics, trait objects or lifetimes-parameterised types.",
+         "Trusted: the emitter (harness/pxe2e/src/emit.rs) produces what the spec says; toolchain alias `nightly` with locally built std JSON docs stands in for the pinned docs toolchain.",
+         "DESIGN.md §3, §4 C01"),
+ "C02": ("pxe2e", "generative end-to-end testing: applications generated inside the documented-rules class by construction; oracle 'accepted with no ERROR', alone and nested with siblings",
+         "The generator assigns every injectable type a usage discipline (borrow-only, move-once, Copy, clone-if-necessary, transient) and builds constructors, middlewares and handlers that respect it, so that by the documented rules the application must be accepted; every rejection is a violation (or a listed finding). One genuine defect (Copy values across middleware stages) found and fixed; two compiler panics on rule-abiding applications are filed as known findings. Cannot show absence.",
+         "Trusted: the discipline assignment in harness/pxe2e/src/genr.rs encodes the documented rules (each rule is cited in DESIGN.md). Prefix path parameters and observers outside the root blueprint are not generated.",
+         "DESIGN.md §4 C02"),
+ "C03": ("pxe2e", "generative end-to-end testing with an instrumented application: event-log invariants over generated request scripts (model-based oracle for lifecycles)",
+         "Every accepted generated application is built into a real server; a driver sends request scripts (each route x plans: none / early return / skip next / fail component) over loopback; constructors and components log construction and reception events with instance ids. Oracle: singleton built once before serving and shared, request-scoped at most once per request and shared, transient once per injection site, nothing received before it was built. Samples schedules of a single-connection client; concurrency between requests is not explored here.",
+         "Trusted: the instrumentation template (harness/pxe2e/src/templates/rt.rs) and the event-log oracle (oracles.rs).",
+         "DESIGN.md §4 C03"),
+ "C04": ("pxe2e", "generative end-to-end testing: scope-resolution reference model (nearest enclosing blueprint, latest registration) vs the constructor variant observed at run time; clone/move accounting",
+         "Types get up to 3 constructor variants registered at different nesting levels and twice in one blueprint; the instance id records which variant built the value each component received; compared with the reference resolution. Never-clone values must never be cloned, clone-if-necessary values only cloned (counted). Cannot show absence.",
+         "Trusted: model::resolve_ctor and the instrumentation. Singletons have one registration (documented rule).",
+         "DESIGN.md §4 C04"),
+ "C05": ("pxe2e", "generative end-to-end testing: documented stage semantics of pre/post/wrapping middlewares as a reference interpreter; exact enter/exit trace comparison",
+         "Arbitrary interleavings of pre-processing, post-processing and wrapping middleware registrations, routes and nested blueprints x plans (continue / early return / do-not-call-next); the observed enter/exit sequence, the response status/body and the post-processor stamps must equal the reference interpreter's prediction. Cannot show absence.",
+         "Trusted: model::expected_trace (written from the middleware documentation).",
+         "DESIGN.md §4 C05"),
+ "C06": ("pxe2e", "generative end-to-end testing: per-failure oracle over the event log (error handler once, observers in order, dependants skipped, client sees the handler's response)",
+         "Fallible constructors, middlewares and handlers are made to fail one at a time (and post-processors repeatedly) by the request plan; for every failure event in the log: exactly one designated error handler ran on that error, every observer in scope ran once each in registration order after it, no dependant of the failed value ran, the response comes from the error handler. Cannot show absence.",
+         "Trusted: model::resolve_err_handler and oracles::check_failure. Observers are registered in the root blueprint only.",
+         "DESIGN.md §4 C06"),
+ "C07": ("pxe2e", "generative end-to-end testing + model-based oracle: generated route tables (static/param/catch-all segments, method guards incl. ANY and custom, prefixes, domains, fallbacks) vs an independent reference router, requests derived from the routes and mutated",
+         "Route tables are generated, filtered by the documented conflict rules, compiled and served; requests derived from each route (matching, near-miss, wrong method, trailing slash, percent-encoding, Host variants incl. port / trailing dot / case) are sent over loopback and the answering handler, 404/405 + Allow set and the fallback chosen are compared with the reference router. Four genuine defects found and fixed (prefix off-by-one panic, exact-prefix fallback, start-up order conflicts, two trailing dots); one filed as finding (fallback shadowed by a parametric prefix). Cannot show absence.",
+         "Trusted: model::route_request. Prefixes with parameters are generated only in the fallback sub-campaign; a domain whose only content is nested under a prefix is not generated.",
+         "DESIGN.md §4 C07"),
+ "C08": ("pxe2e", "mutation-based generative testing: exactly one violation of one of 14 documented compile-time rules planted at a generated site of a rule-abiding application; oracle 'exit 1, >=1 ERROR, output crate untouched'",
+         "For each base application every rule is planted at a seed-chosen site among the components pavexc must analyse (any dependency depth, nested blueprints, middlewares, observers, error handlers); the crate still compiles as Rust; pavexc must refuse it with an error diagnostic, must not crash and must not touch the output crate. The first diagnostic is recorded per rule to show that the planted rule is the one reported. One genuine defect found and fixed (inputs of error handlers were not checked). Cannot show absence; rules about generics are not planted.",
+         "Trusted: genr::plant (site selection = components reachable from a route) and the emitter.",
+         "DESIGN.md §4 C08"),
+ "C09": ("pxe2e", "generative robustness testing (chaos class): several planted violations + structural oddities; oracle 'terminates, exit 0 with SDK or exit 1 with ERROR, never a panic'; atomicity by checksum of a previously generated SDK",
+         "Pairs (accepted base, chaos variant) are compiled into the same output crate; every compiler run must end within the watchdog with exit 0/1 coherent with its diagnostics and without panic; a failing variant must leave the base SDK byte-for-byte untouched. Recorded reproductions of the two filed compiler panics are replayed on every run and reported as KNOWN-FINDING. Hangs are reported as exit 2 (inconclusive), never as violations. Cannot show absence.",
+         "Trusted: panic detection = exit code 101 / 'The application panicked' on stderr; checksum over all files of the output crate.",
+         "DESIGN.md §4 C09"),
+ "C10": ("pxe2e", "history-based property testing: generated accepted applications x a fixed history of compiler runs (repeat, --check, fresh processes with RAYON_NUM_THREADS 1/2/16, perturbation, cold cache) with byte/mtime comparison",
+         "Each application goes through: generate; generate again (same bytes, same mtimes); --check (exit 0, nothing touched); three regenerations from a reset output crate in fresh processes with different thread counts (same bytes of Cargo.toml, lib.rs, diagnostics graph); one-byte perturbation -> --check exits non-zero and does not repair -> regenerate restores the bytes; thorough adds cold documentation cache runs. Hash seeds differ per process, so 6-7 independent samples per application; interleavings are sampled, not enumerated.",
+         "Trusted: file hashing in round::fingerprint. The cache of each lane has been used by many other generated projects (shared-cache history).",
+         "DESIGN.md §4 C10"),
+})
+
 PENDING = {}  # id -> reason, filled below for everything not in CHECKS
 
 props = [json.loads(l)["id"] for l in open("/verif/properties.jsonl")]
@@ -73,6 +116,8 @@ manifest = {
  "engines": [
    {"name": "cprops", "path": "harness/cprops", "serves_properties": [p for p in props if p in CHECKS and CHECKS[p][0]=="cprops"],
     "kind_free_text": "in-process proptest checks that link the compiler library (pavexc, feature verif_hooks)"},
+   {"name": "pxe2e", "path": "harness/pxe2e", "serves_properties": [p for p in props if p in CHECKS and CHECKS[p][0]=="pxe2e"],
+    "kind_free_text": "end-to-end engine: proptest-generated application crates -> Blueprint::persist -> real pavexc (rebuilt from /repo) -> rustc -> instrumented server driven over loopback; reference models for scopes, pipelines and routing; greedy spec shrinking; work lanes under /verif/.work"},
    {"name": "rtprops", "path": "harness/rtprops", "serves_properties": [p for p in props if p in CHECKS and CHECKS[p][0]=="rtprops"],
     "kind_free_text": "in-process proptest checks against the real runtime/compiler library crates (path dependencies on /repo), fixed-seed TestRunner, shrunk failures saved as replay files"},
  ],
